@@ -3,6 +3,7 @@ package main
 // Evaluation of contract expressions to SMT terms under a (current, old) state.
 
 import (
+	"golang.org/x/tools/go/ssa"
 	"fmt"
 	"go/constant"
 	"go/types"
@@ -942,6 +943,27 @@ func (e *Env) call(x *SCall) Val {
 			ne.now = e.cur
 		}
 		return ne.rvalue(ne.eval(x.Args[0]))
+	case "final":
+		// final(p): the current content of parameter p's variable when p lives in a
+		// cell (captured by a closure, or its address taken) and may have been
+		// reassigned; for other expressions, the expression itself
+		if idt, ok := x.Args[0].(*SIdent); ok && t.fn != nil && len(t.fn.Blocks) > 0 && e.cur != nil {
+			for _, in := range t.fn.Blocks[0].Instrs {
+				al, ok := in.(*ssa.Alloc)
+				if !ok || al.Comment != idt.Name {
+					continue
+				}
+				if _, isParam := t.paramEnv[idt.Name]; !isParam {
+					continue
+				}
+				a := t.addrOf(al)
+				if a.Kind == aStruct || a.Kind == aArray {
+					break
+				}
+				return Val{T: t.load(e.cur, a), Ty: al.Type().Underlying().(*types.Pointer).Elem()}
+			}
+		}
+		return e.rvalue(e.eval(x.Args[0]))
 	case "now":
 		// inside old(...): this operand is evaluated in the current state after all
 		if e.now == nil {
